@@ -201,8 +201,11 @@ let k3_line (line : string) : string =
       | None -> "-"
       | Some r -> Printf.sprintf "max%s:chunk%s:%s" (string_of_n r.r_max_threads) (string_of_n (r_inner r.r_chunk))
                     (match r.r_chunk with RExact _ -> "exact" | RMin _ -> "min")) in
-  Printf.sprintf "id=%s runner=%s complete=%d seen=%s pmid=%s sites=%s seqlog=%s res=%s params=%s kind=%s seq=%d consumed=%d clog=%s calls=%s spawned=%d chunks=%s pulls=%s"
-    (get fs "id") runner_s (if o.o_complete then 1 else 0) seen_s (params_str omid.o_params) (if sites = [] then "-" else String.concat "," sites) seqlog (res_str o.o_result) (params_str o.o_params) (kind_str o.o_kind)
+  let rlen_s = (match o.o_runner with
+      | Some r -> (match r.r_input_len with Some l -> string_of_n l | None -> "?")
+      | None -> "-") in
+  Printf.sprintf "id=%s rlen=%s runner=%s complete=%d seen=%s pmid=%s sites=%s seqlog=%s res=%s params=%s kind=%s seq=%d consumed=%d clog=%s calls=%s spawned=%d chunks=%s pulls=%s"
+    (get fs "id") rlen_s runner_s (if o.o_complete then 1 else 0) seen_s (params_str omid.o_params) (if sites = [] then "-" else String.concat "," sites) seqlog (res_str o.o_result) (params_str o.o_params) (kind_str o.o_kind)
     (if o.o_sequential then 1 else 0) (int_of_nat o.o_consumed)
     (str_list call_str o.o_clog) (str_list call_str all_calls)
     (int_of_nat o.o_spawned) (str_list (fun n -> string_of_int (int_of_nat n)) o.o_chunks)
